@@ -694,4 +694,93 @@ theorem turn_reach {cfg : Config} {s0 : State} : ∀ (ops : List Op) {s s' : Sta
           have := turn_reach ops (Reach.step hr h1) h2
           simpa [List.append_assoc] using this
 
+/-! ### several instances -/
+
+/-- what a block addressed to instance `j` does there is exactly a `step` of that instance (with its own configuration and
+state, appended to its own history) -/
+theorem mstep_at {m m' : Multi} {j : Nat} {op : Op} {e : List Ev} (h : mstep m (.at j op) = some (m', e)) :
+    ∃ cfg s tr s', m[j]? = some (cfg, s, tr) ∧ step cfg s op = some (s', e) ∧ m' = m.set j (cfg, s', tr ++ e) := by
+  cases op with
+  | advance dt => simp [mstep] at h
+  | lookup c k =>
+    simp only [mstep] at h
+    split at h
+    · simp at h
+    · next cfg s tr hm =>
+      split at h
+      · simp at h
+      · split at h
+        · simp at h
+        · next s' e' hs => simp at h; obtain ⟨rfl, rfl⟩ := h; exact ⟨cfg, s, tr, s', hm, hs, rfl⟩
+  | loadOk k v =>
+    simp only [mstep] at h
+    split at h
+    · simp at h
+    · next cfg s tr hm =>
+      split at h
+      · simp at h
+      · split at h
+        · simp at h
+        · next s' e' hs => simp at h; obtain ⟨rfl, rfl⟩ := h; exact ⟨cfg, s, tr, s', hm, hs, rfl⟩
+  | loadFail k =>
+    simp only [mstep] at h
+    split at h
+    · simp at h
+    · next cfg s tr hm =>
+      split at h
+      · simp at h
+      · split at h
+        · simp at h
+        · next s' e' hs => simp at h; obtain ⟨rfl, rfl⟩ := h; exact ⟨cfg, s, tr, s', hm, hs, rfl⟩
+  | cancelCaller c =>
+    simp only [mstep] at h
+    split at h
+    · simp at h
+    · next cfg s tr hm =>
+      split at h
+      · simp at h
+      · split at h
+        · simp at h
+        · next s' e' hs => simp at h; obtain ⟨rfl, rfl⟩ := h; exact ⟨cfg, s, tr, s', hm, hs, rfl⟩
+
+/-- Frame property: a block addressed to instance `j` changes nothing in any other instance. -/
+theorem mstep_frame {m m' : Multi} {j : Nat} {op : Op} {e : List Ev} (h : mstep m (.at j op) = some (m', e))
+    (i : Nat) (hij : i ≠ j) : m'[i]? = m[i]? := by
+  obtain ⟨cfg, s, tr, s', _, _, rfl⟩ := mstep_at h
+  simp [Ne.symm hij]
+
+/-- every instance of a multi-instance state is a reachable state of the single-cache model, with its own history -/
+def EachReach (m : Multi) : Prop := ∀ x ∈ m, Reach x.1 x.2.1 x.2.2
+
+theorem eachReach_start (cfgs : List Config) : EachReach (Multi.start cfgs) := by
+  intro x hx
+  simp only [Multi.start, List.mem_map] at hx
+  obtain ⟨cfg, _, rfl⟩ := hx
+  exact Reach.init
+
+theorem eachReach_step {m m' : Multi} {op : MOp} {e : List Ev} (hm : EachReach m) (h : mstep m op = some (m', e)) :
+    EachReach m' := by
+  cases op with
+  | «at» j op =>
+    obtain ⟨cfg, s, tr, s', hj, hs, rfl⟩ := mstep_at h
+    intro x hx
+    rcases List.mem_or_eq_of_mem_set hx with hx | rfl
+    · exact hm x hx
+    · exact Reach.step (hm _ (List.mem_of_getElem? hj)) hs
+  | advance dt =>
+    simp [mstep] at h; obtain ⟨rfl, _⟩ := h
+    intro x hx
+    simp only [List.mem_map] at hx
+    obtain ⟨y, hy, rfl⟩ := hx
+    have := Reach.step (op := Op.advance dt) (s' := { y.2.1 with now := y.2.1.now + dt }) (e := []) (hm y hy) (by simp [step])
+    simpa using this
+
+theorem mrun_eachReach : ∀ (ops : List MOp) {m m' : Multi}, EachReach m → mrun m ops = some m' → EachReach m'
+  | [], m, m', hm, h => by simp [mrun] at h; subst h; exact hm
+  | op :: ops, m, m', hm, h => by
+    simp only [mrun] at h
+    split at h
+    · simp at h
+    · next m1 e1 h1 => exact mrun_eachReach ops (eachReach_step hm h1) h
+
 end HailVerif.Cache
